@@ -124,3 +124,30 @@ Qed.
 Definition flag_rule (fin_act : action -> bool) (s' : sched) (o : outcome) : Prop :=
   is_running s' = true /\
   match o with Yield a => is_exhausted s' = fin_act a | StopIteration => is_exhausted s' = true | Raise _ => True end.
+
+(* termination along a run: a measure that decreases while the schedule is not exhausted *)
+Section TERM.
+Variable p : xparams.
+Variable I : sched -> mon -> Prop.
+Variable mu : sched -> Z.
+Variable fin : sched -> bool.
+Hypothesis step : forall s m, I s m -> mon_ok m -> good_step p I s m.
+Hypothesis mu_nonneg : forall s m, I s m -> 0 <= mu s.
+Hypothesis mu_dec : forall s m, I s m -> fin s = false -> mu (fst (next s)) < mu s.
+Hypothesis fin_stays : forall s m, I s m -> fin s = true -> fin (fst (next s)) = true.
+Lemma run_nexts_fin : forall k s m, I s m -> mon_ok m -> (fin s = true \/ mu s < Z.of_nat k) ->
+  fin (fst (fst (run_ops p s m (repeat Next k)))) = true.
+Proof.
+  induction k as [|k IH]; intros s m HI Hm Hk; cbn [repeat run_ops].
+  - destruct Hk as [Hk|Hk]; [exact Hk|]. pose proof (mu_nonneg s m HI). lia.
+  - pose proof (step s m HI Hm) as Hs. unfold good_step in Hs.
+    assert (Hk' : fin (fst (next s)) = true \/ mu (fst (next s)) < Z.of_nat k).
+    { destruct (fin s) eqn:Ef; [left; exact (fin_stays s m HI Ef)|]. destruct Hk as [Hk|Hk]; [discriminate|].
+      right. pose proof (mu_dec s m HI Ef). lia. }
+    destruct (next s) as [s' o]. cbn [fst] in Hk'. destruct o as [a| |e]; [|idtac|contradiction].
+    + destruct Hs as [Hm' HI']. specialize (IH s' _ HI' Hm' Hk').
+      destruct (run_ops p s' _ (repeat Next k)) as [[s2 m2] ls]. exact IH.
+    + specialize (IH s' m Hs Hm Hk').
+      destruct (run_ops p s' m (repeat Next k)) as [[s2 m2] ls]. exact IH.
+Qed.
+End TERM.
